@@ -37,6 +37,14 @@ CHECKS = {
          "The real App::run (threaded runtime) with a shutdown receiver runs on a simulated TcpListener under the controlled scheduler: 0, 1 or 2 (thorough 3) client connections, each in one of 7 states (just connected, half a request sent, short request, keep-alive idle, handler that never returns, open WebSocket, two requests on one connection), all unordered pairs, pools of 1 and 2 workers incl. fully occupied pools, bind addresses 127.0.0.1, 0.0.0.0 and [::] (wake-up address mapping). The signal thread and the clients run concurrently with the server, so the explorer places the signal before the first connect, between accepts, between accept and dispatch and while responses are being written; every execution within 3 (4) deviations of the default scheduler for 0-1 connections and 1-2 (3) for pairs is run. Checked on each: run() returns Ok (a blocked caller with nothing enabled = deadlock), the address can be bound again immediately, everything the server wrote on a connection is a whole number of complete responses (nothing truncated), accepted servable connections are answered, unaccepted ones get nothing.",
          "Trusted: facade mirror and simulated listener/backlog/connect semantics. The tokio runtime is NOT covered by this check (its scheduler and tokio::net cannot be controlled with what is installed; see DESIGN.md §4). Promptness is decided in virtual time: run() returns without any timer firing.",
          "DESIGN.md §3 C20"),
+ "C02": ("E2-enum", "generator-as-oracle enumeration of structured requests x read-segmentation plans",
+         "Structured requests from the bounded grammar (5 methods x 6 targets x 5 query shapes x 2 versions; all header sequences of length <=2 over 6 names (3 case variants of one name) x 8 values x 4 OWS forms and length <=3 (4) over a 12-pair sub-menu; 20/21/32/33/34/40(/64)-field sets with the second name on every contiguous run and residue class; Cookie lists of 0..3 pairs x 3 separators; X-Forwarded-For lists of 1..3 v4/v6 addresses with ',' and ', '; bodies of 0..65536 bytes at the BufReader capacity boundaries with the body start padded onto 8190..8193) are rendered to bytes and parsed by the real Request::from_stream under every read plan (whole, byte-by-byte, every single cut, pairs in thorough; structural boundaries for long requests). The generating structure is the expected result, compared through the public API (per-name value sequences under three spellings, get/get_all, cookies, origin/proxies/port, body). Each parsed request is serialised and parsed again and must be equal up to the order of differently-named fields.",
+         "Trusted: the request renderer (30 lines). Only the threaded parser; values with trailing whitespace and multiple Cookie fields are outside the property. Body contents: one adversarial pattern (CR, LF, NUL, 0xFF) per length.",
+         "DESIGN.md §3 C02"),
+ "C07": ("E2-enum", "bounded-exhaustive enumeration of responses, chunkings, read plans and redirect chains against a strict HTTP grammar and the generating structure",
+         "(a) Responses built through the public API over all modelled status codes x header lists of size 0..2 (3) incl. repeated names, all 256 Set-Cookie attribute combinations and 33/40-field sets x bodies {0,1,5,8192(,65536)} are serialised, checked against RFC 7230 syntax (status line with a registered reason phrase in RFC 2616/7231/9110 wording, one line per field, blank line, body) and parsed back. (b) Wire responses for every status x {Content-Length, chunked under every composition of bodies <=6 bytes into chunks, lower/upper-case hex sizes, a 200-byte body in 10..16-byte chunks} are parsed under every read plan (whole, bytewise, every single cut; pairs in thorough) and must return exactly status, headers and payload (chunked reported as plain body + Content-Length). (c) The real Client follows every redirect chain of length 0..3 (4) over {301,302,307} x {relative, absolute Location} against a scripted server on 127.0.0.1:80 and must end at the final response having issued exactly the chain's requests.",
+         "Trusted: strict head parser and chunk renderer in the check. (c) uses real loopback TCP because the client is not routed through the facade (needs to bind port 80; skipped with a recorded cap if that fails). Known finding: the CRLF appended after non-empty bodies (pinned by the repository's tests).",
+         "DESIGN.md §3 C07"),
 }
 NOT_YET = {}
 
